@@ -175,6 +175,45 @@ def correspondence(rep, ctx):
             rev = rd.Nuclide(nm, ds)
             if list(rev.progeny()) != prog[::-1] or [float(x) for x in rev.branching_fractions()] != [float(x) for x in n0.branching_fractions()][::-1]:
                 fail(f"lists of {nm!r} on the reversed-list dataset", "do not follow that dataset's own lists")
+    # ---- synthetic datasets loaded through load_dataset(dir_path=…): queries vs the model run on the same dataset
+    import synthetic
+    for k in range(8 if thorough else 2):
+        tag = f"c15_{ctx.seed}_{k}"
+        ds, sch, path = synthetic.build(rd, view, r, tag)
+        try:
+            sview = DatasetView(ds)
+            slines, sitems = [], []
+            for i, nm in enumerate(sview.names):
+                for u in sorted(set(r.sample(tunits, 4) + [str(ds.hldata[i][1]), "s"])):
+                    sitems.append(("hl", nm, u, ds.half_life(nm, u)))
+                    slines.append(f"hl\tsyn\t{i}\t{hexs(u)}")
+                for pn in sview.names:
+                    sitems.append(("pair", nm, pn, (ds.branching_fraction(nm, pn), ds.decay_mode(nm, pn))))
+                    slines.append(f"bfq\tsyn\t{i}\t{hexs(pn)}")
+            if not ctx.build_ok:
+                continue
+            prelude = synthetic.driver_lines(ds, "syn")
+            out = lean_driver(prelude + slines)[len(prelude):]
+            for (kind, nm, x, got), m in zip(sitems, out):
+                rep.case(("synthetic", tag, kind, nm, x))
+                rep.dist("synthetic-dataset:" + kind)
+                desc = f"synthetic dataset ({sch['names'][:4]}…, half-life of {nm}: {ds.hldata[sview.index[nm]][2]})"
+                if kind == "hl":
+                    if m == "ok inf":
+                        if float(got) != float("inf"):
+                            fail(f"{desc}: half_life({nm!r}, {x!r})", f"{got!r} for a stable nuclide")
+                    elif m.startswith("ok "):
+                        want = parse_frac(m[3:])
+                        if got == float("inf") or abs(F(got) - want) > 4 * ULP * want:
+                            fail(f"{desc}: half_life({nm!r}, {x!r})", f"{got!r}, stored half-life converted exactly = {float(want)!r}")
+                    else:
+                        fail(f"{desc}: half_life({nm!r}, {x!r})", f"model refuses: {m}")
+                else:
+                    _, bq, mq = m.split(" ")
+                    if Fraction(repr(float(got[0]))) != parse_frac(bq) or str(got[1]) != unhexs(mq):
+                        fail(f"{desc}: branching_fraction/decay_mode({nm!r}, {x!r})", f"{got} vs listed ({float(parse_frac(bq))}, {unhexs(mq)!r})")
+        finally:
+            synthetic.cleanup(path)
     rep.corr["exhaustive"] = thorough
     rep.notes["mismatches"] = bad
 
